@@ -1582,6 +1582,253 @@ def lesson4_cases(ctx, rng, cuqi, state, cases):
                 m_.signature = SIG_X0
 
 
+# ---------------- life-cycle histories of the experimental sampler object (lesson L14 applied to the cache clause) ----------------
+# A live sampler is re-used: its target is replaced, its initial point re-assigned (the very array object it holds as
+# current point -- what HybridGibbs does for a NUTS block at every sweep -- or an equal copy), it is re-initialised (once,
+# twice), its state is saved and restored.  After every such history the caches must belong to the CURRENT target at the
+# CURRENT point, and the next transition must be the model's transition for that target from that point.
+SIG_LIFE = "NUTS.exp.lifecycle_cache"
+LIFE_HISTORIES = ["retarget/same-object/reinit", "retarget/copy/reinit", "retarget/same-object/reinit-twice", "retarget/gibbs-sweep",
+                  "retarget/gibbs-sweep-x2", "same-target/same-object/reinit", "retarget/there-and-back/step", "retarget/step",
+                  "state/get-step-set", "state/into-fresh-sampler", "state/retarget-reinit-set"]
+
+
+def exact_target(spec, x):
+    """log-density and gradient in exact rationals, from the closed form (independent of target_funcs / the cuqi objects)"""
+    k = spec["kind"]
+    x = [frac(v) for v in x]
+    if k == "shift":
+        l, g = exact_target(spec["inner"], x)
+        return l + frac(spec["c"]), g
+    if k == "lin":
+        l, g = exact_target(spec["inner"], x)
+        b = [frac(v) for v in spec["b"]]
+        return l + sum(bi * xi for bi, xi in zip(b, x)), [gi + bi for gi, bi in zip(g, b)]
+    if k == "gauss":
+        p = [frac(v) for v in spec["prec"]]
+        return -sum(pi * xi * xi for pi, xi in zip(p, x)) / 2, [-pi * xi for pi, xi in zip(p, x)]
+    if k == "split":
+        p = [frac(a if xi < 0 else b) for a, b, xi in zip(spec["pl"], spec["pr"], x)]
+        return -sum(pi * xi * xi for pi, xi in zip(p, x)) / 2, [-pi * xi for pi, xi in zip(p, x)]
+    if k == "quartic":
+        return -sum(xi ** 4 for xi in x) / 4, [-(xi ** 3) for xi in x]
+    if k == "quad":
+        P = [[frac(v) for v in row] for row in spec["P"]]
+        d = len(x)
+        Px = [sum(P[i][j] * x[j] for j in range(d)) for i in range(d)]
+        Ptx = [sum(P[j][i] * x[j] for j in range(d)) for i in range(d)]
+        return -sum(xi * pi for xi, pi in zip(x, Px)) / 2, [-(a + b) / 2 for a, b in zip(Px, Ptx)]
+    raise ValueError(k)
+
+
+def run_history(cuqi, hist, spec1, spec2, eps, md, x0, pre, script):
+    """drives one life-cycle history of cuqi.experimental.mcmc.NUTS: the sampler is created on spec1 at x0 and makes the
+    scripted transitions `pre`; then the history; then ONE scripted transition.  Returns
+    (spec_now, x_expected, cache observation right after the history, observation of the scripted transition)."""
+    from cuqi.experimental.mcmc import NUTS
+    T1, T2 = mk_target(cuqi, spec1), mk_target(cuqi, spec2)
+    s = NUTS(T1, initial_point=np.array(x0, dtype=float), max_depth=md, step_size=eps)
+    sc0 = Script(list(pre))
+    if pre:
+        with ScriptedRandom(seed=5, script=sc0):
+            s.sample(len(pre))
+    else:
+        s.initialize()
+    xc = np.array(s.current_point, dtype=float).copy()        # where the chain is (the harness' own copy)
+    spec_now, x_exp = spec2, xc
+
+    def sweep():
+        s.initial_point = s.current_point
+        s.reinitialize()
+        s._pre_warmup()
+        s._pre_sample()
+    if hist == "retarget/same-object/reinit":
+        s.target = T2
+        s.initial_point = s.current_point
+        s.reinitialize()
+    elif hist == "retarget/copy/reinit":
+        s.target = T2
+        s.initial_point = np.array(s.current_point, dtype=float).copy()
+        s.reinitialize()
+    elif hist == "retarget/same-object/reinit-twice":
+        s.target = T2
+        s.initial_point = s.current_point
+        s.reinitialize()
+        s.reinitialize()
+    elif hist == "retarget/gibbs-sweep":
+        s.target = T2
+        sweep()
+    elif hist == "retarget/gibbs-sweep-x2":
+        s.target = T2
+        sweep()
+        with ScriptedRandom(seed=6, script=Script([script])):
+            s.step()                                         # HybridGibbs calls step() directly
+        x_exp = np.array(s.current_point, dtype=float).copy()
+        s.target = mk_target(cuqi, spec1)
+        sweep()
+        spec_now = spec1
+    elif hist == "same-target/same-object/reinit":
+        s.initial_point = s.current_point
+        s.reinitialize()
+        spec_now = spec1
+    elif hist == "retarget/there-and-back/step":
+        s.target = T2
+        s.target = mk_target(cuqi, spec1)                   # an equal density (a new object): the caches still are its values
+        spec_now = spec1
+    elif hist == "retarget/step":
+        s.target = T2                                        # no reinitialize: only what the transition itself computes is checked
+    elif hist == "state/get-step-set":
+        st = s.get_state()
+        with ScriptedRandom(seed=6, script=Script([script])):
+            s.sample(1)
+        s.set_state(st)
+        spec_now = spec1
+    elif hist == "state/into-fresh-sampler":
+        st = s.get_state()
+        s = NUTS(mk_target(cuqi, spec1), initial_point=np.zeros(len(x0)), max_depth=md, step_size=eps)
+        s.initialize()
+        s.set_state(st)
+        spec_now = spec1
+    elif hist == "state/retarget-reinit-set":
+        st = s.get_state()
+        s.target = T2
+        s.initial_point = s.current_point
+        s.reinitialize()
+        s.target = mk_target(cuqi, spec1)
+        s.set_state(st)                                      # back on (an equal copy of) the first target with the state saved there
+        spec_now = spec1
+    else:
+        raise ValueError(hist)
+    cache = dict(point=np.array(s.current_point, dtype=float).copy(), logd=float(s.current_target_logd),
+                 grad=np.array(s.current_target_grad, dtype=float).copy())
+    rec = Recorder(s)
+    z, e, us = script
+    sc = Script([(z, e, us)])
+    sc.on_start = lambda scripted: rec.start()
+    n_before = len(s.epsilon_list)
+    try:
+        with ScriptedRandom(seed=7, script=sc):
+            s.sample(1)
+    except StopIteration:
+        raise OutOfUniforms()
+    tr = rec.trans[-1]
+    o = dict(x0=cache["point"].copy(), eps=float(s.epsilon_list[n_before]), leaves=tr["leaves"], point=np.array(s.current_point, dtype=float).copy(),
+             logd=float(s.current_target_logd), grad=np.array(s.current_target_grad, dtype=float).copy(), acc=bool(s._acc[-1]),
+             nrand=sum(1 for o_ in sc.orders[-1] if o_ == "rand"), nlast=len(tr["leaves"]) - tr["top"][-1] if tr["top"] else 0,
+             alpha=float(s._current_alpha_ratio), order=sc.orders[-1], ntree=int(s.num_tree_node_list[-1]),
+             start_expected=[float(v) for v in x_exp], md=md)
+    cache["eps_used"], cache["eps_set"] = o["eps"], float(eps)
+    return spec_now, x_exp, cache, o
+
+
+def life_cache_oracle(hist, spec_now, x_exp, cache):
+    """independent statement of the clause: the chain is where the history left it and the caches are the CURRENT target's
+    log-density and gradient there (closed form in exact rationals)"""
+    if cache.get("eps_used") is not None and cache["eps_used"] != cache["eps_set"]:
+        return "after the history %s the next transition used the step size %r, not the configured %r" % (hist, cache["eps_used"], cache["eps_set"])
+    if not np.array_equal(cache["point"], x_exp):
+        return "after the history %s the chain is at %s, not at %s where it was" % (hist, cache["point"], x_exp)
+    L, G = exact_target(spec_now, cache["point"])
+    if not relclose(cache["logd"], float(L), 1e-12):
+        return ("after the history %s current_target_logd = %r, but the log-density of the current target at the current point %s is %r"
+                % (hist, cache["logd"], cache["point"], float(L)))
+    if len(cache["grad"]) != len(G) or not all(relclose(float(a), float(b), 1e-12) for a, b in zip(cache["grad"], G)):
+        return ("after the history %s current_target_grad = %s, but the gradient of the current target at the current point %s is %s"
+                % (hist, cache["grad"], cache["point"], [float(v) for v in G]))
+    return None
+
+
+def life_cache_expr(spec_now, x_exp, cache):
+    """the model's notion (C08_cache_consistent_concrete): the state c_init t x carries t_grad t x, its log-density is c_lgd"""
+    return ("(let s := c_init %s (qvec %s) (qvec %s) in ql_close tol9 %s (map this (ps_x s)) && ext_close tol9 %s (c_lgd %s s) && ql_close tol9 %s (map this (ps_g s)))"
+            % (ctarget(spec_now), cqvec(x_exp), cqvec(x_exp), cqvec(cache["point"]), cext(cache["logd"]), ctarget(spec_now), cqvec(cache["grad"])))
+
+
+def life_one(state, cuqi, hist, spec1, spec2, eps, md, x0, pre, script, cases):
+    meta = {"impl": "exp", "life": hist, "target": spec1, "target2": spec2, "eps": eps, "max_depth": md, "x0": x0,
+            "pre": [[z, e, us] for (z, e, us) in pre], "script": [script[0], script[1], script[2]]}
+    base = lambda sp: kind_name(sp["inner"]) if sp["kind"] == "shift" else kind_name(sp)     # the additive constant is a value inside the cell
+    cellbase = "exp/life:%s/%s>%s" % (hist, base(spec1), base(spec2))
+    try:
+        spec_now, x_exp, cache, o = run_history(cuqi, hist, spec1, spec2, eps, md, x0, pre, script)
+    except OutOfUniforms:
+        cases.append(Case(expr="false", meta=meta, cell=cellbase + "/crash", kind="DECISION",
+                          impl_fail="consumed more uniforms than any NUTS transition of this depth can", signature="NUTS.exp.raises"))
+        return
+    except Exception as ex:
+        cases.append(Case(expr="false", meta=meta, cell=cellbase + "/crash", kind="DECISION",
+                          impl_fail="the sampler raised %r in the life-cycle history %s" % (ex, hist), signature="NUTS.exp.raises"))
+        return
+    z, e, us = script
+    if hist == "retarget/step":
+        # the target was replaced on a live sampler without re-initialising: the caches are refreshed by the transition
+        # only (documented: HybridGibbs re-initialises for this reason).  What the transition computes must be the NEW
+        # target's: the log-density of every leaf, and the caches if the chain moved.
+        fail = None
+        for (lx, lr, ll) in o["leaves"]:
+            L, _ = exact_target(spec_now, lx)
+            if not relclose(ll, float(L), 1e-12):
+                fail = "after the target was replaced a leaf at %s has log-density %r; the current target gives %r" % (lx, ll, float(L))
+                break
+        moved = not np.array_equal(o["point"], o["x0"])
+        if fail is None and moved:
+            fail = life_cache_oracle(hist + " + one accepted transition", spec_now, o["point"], dict(point=o["point"], logd=o["logd"], grad=o["grad"]))
+        expr = life_cache_expr(spec_now, o["point"], dict(point=o["point"], logd=o["logd"], grad=o["grad"])) if moved else "true"
+        cases.append(Case(expr=expr, meta=dict(meta, part="after-step"), cell=cellbase + "/cache-after-step", trivial=not moved, kind="DECISION",
+                          impl_fail=fail, signature=SIG_LIFE if fail else ""))
+        return
+    fail = life_cache_oracle(hist, spec_now, x_exp, cache)
+    cases.append(Case(expr=life_cache_expr(spec_now, x_exp, cache), meta=dict(meta, part="cache"), cell=cellbase + "/cache", kind="DECISION",
+                      impl_fail=fail, signature=SIG_LIFE if fail else ""))
+    chain_meta = dict(meta, part="transition")
+    c, _ = mk_case(state, "exp", spec_now, md, "life", o, z, e, us, chain_meta, 0)
+    c.cell = cellbase + "/transition"
+    if fail and not c.impl_fail:
+        c.impl_fail, c.signature = fail, SIG_LIFE
+    cases.append(c)
+
+
+def lifecycle_cases(ctx, rng, cuqi, state, cases):
+    pairs = [("gauss", "gauss"), ("gauss", "quad"), ("split", "gauss")]
+    for hi, hist in enumerate(LIFE_HISTORIES):
+        for pi in range(len(pairs) if ctx.thorough else 2):
+            k1, k2 = pairs[(hi + pi) % len(pairs)]
+            for _ in range(ctx.n(1, 3)):
+                d = rng.choice([2, 3]) if "quad" in (k1, k2) else rng.randint(1, 3)
+                spec1, spec2 = gen_spec(rng, k1, d=d), gen_spec(rng, k2, d=d)
+                if k1 == k2 == "gauss":
+                    while spec2["prec"] == spec1["prec"]:
+                        spec2 = gen_spec(rng, k2, d=d)
+                if rng.random() < 0.5:
+                    spec2 = {"kind": "shift", "c": rng.choice([-3.5, 7.25, 1024.0]), "inner": spec2}     # same gradient scale, other log-density level
+                md, eps = rng.choice([1, 2]), rng.choice([0.25, 0.5])
+                x0 = gen_start(rng, spec1)
+                if all(v == 0 for v in x0):
+                    x0[0] = 0.625                   # at the origin all these targets have the same gradient
+                mks = lambda: (gen_z(rng, d),) + gen_script(rng, md)
+                pre = [mks() for _ in range(rng.choice([0, 1, 2]))]
+                life_one(state, cuqi, hist, spec1, spec2, eps, md, x0, pre, mks(), cases)
+
+
+def life_replay(cuqi, m):
+    """re-runs a life-cycle history; returns the oracle's verdict (None = the clause holds)"""
+    pre = [(z, e, us) for (z, e, us) in m["pre"]]
+    script = tuple(m["script"])
+    spec_now, x_exp, cache, o = run_history(cuqi, m["life"], m["target"], m["target2"], m["eps"], m["max_depth"], m["x0"], pre, script)
+    if m["life"] == "retarget/step":
+        for (lx, lr, ll) in o["leaves"]:
+            L, _ = exact_target(spec_now, lx)
+            if not relclose(ll, float(L), 1e-12):
+                return "after the target was replaced a leaf at %s has log-density %r; the current target gives %r" % (lx, ll, float(L)), cache, o, spec_now
+        if not np.array_equal(o["point"], o["x0"]):
+            return life_cache_oracle(m["life"] + " + one accepted transition", spec_now, o["point"], dict(point=o["point"], logd=o["logd"], grad=o["grad"])), cache, o, spec_now
+        return None, cache, o, spec_now
+    d = life_cache_oracle(m["life"], spec_now, x_exp, cache)
+    if d is None:
+        d = transition_oracle("exp", spec_now, o, script[0], script[1])[0]
+    return d, cache, o, spec_now
+
+
 def run(ctx):
     import cuqi
     import common
@@ -1609,6 +1856,7 @@ def run(ctx):
     tie_cases(ctx, rng, cuqi, state, cases)
     scale_cases(ctx, rng, cuqi, state, cases)
     lesson4_cases(ctx, rng, cuqi, state, cases)
+    lifecycle_cases(ctx, rng, cuqi, state, cases)
     cyc_checked = cycle_cases(ctx, rng, cuqi, state, cases)
     open_checked = open_kernel_cases(ctx, rng, cuqi, state, cases)
     # how many of the scripted transitions were decided with all margins (sample)
@@ -1693,6 +1941,8 @@ def oracle(ctx, meta):
     """a model/implementation disagreement on a scripted transition: look for a failure of the property itself at the same
     inputs (per-transition clauses, then stationarity on the orbit through the start of that transition)"""
     import cuqi
+    if meta.get("life"):
+        return life_replay(cuqi, meta)[0]
     if meta.get("cycle"):
         return cycle_replay(cuqi, meta)
     if meta.get("orbit") and meta.get("kernel_law"):
@@ -1844,6 +2094,15 @@ def replay(ctx, meta):
     print(json.dumps(m, indent=1)[:3000])
     if m.get("witness") == SIG_PINF or meta.get("signature") == SIG_PINF and "scripts" not in m:
         print("witness:", pinf_witness(cuqi))
+        return 0
+    if m.get("life"):
+        d, cache, o, spec_now = life_replay(cuqi, m)
+        print("life-cycle history %s of cuqi.experimental.mcmc.NUTS (first target %s, then %s); afterwards the sampler holds" % (m["life"], m["target"], m["target2"]))
+        print("  current_point %s current_target_logd %r current_target_grad %s" % (cache["point"], cache["logd"], cache["grad"]))
+        L, G = exact_target(spec_now, cache["point"])
+        print("  the current target %s at that point: log-density %r gradient %s" % (spec_now, float(L), [float(v) for v in G]))
+        print("  scripted transition from there: %d leaves, new state %s logd=%r grad=%s" % (len(o["leaves"]), o["point"], o["logd"], o["grad"]))
+        print("oracle:", d or "ok")
         return 0
     if m.get("moment_test"):
         print("moment test:", moment_test(cuqi, m["impl"], *m["moment_test"]) or "within 6 sigma")
